@@ -254,6 +254,14 @@ fn attempt_budget_is_per_request() {
     gh().delays = [d; 4];
     let cfg = mk_cfg(2, false, true, Some(1), Duration::ZERO);
     let shared = ReconnectState::new();
+    // whatever EARLIER requests of this layer left in the shared, published attempt counter
+    // (requests that ended in an error never reset it) is not this request's business
+    if kani::any() {
+        shared.increment_attempts();
+    }
+    if kani::any() {
+        shared.increment_attempts();
+    }
     let mut script = svc::any_script();
     script.never = false;
     script.immediate = true;
@@ -261,7 +269,7 @@ fn attempt_budget_is_per_request() {
     let mut s = ReconnectService::new(Inner::new(script), Arc::new(cfg), shared.clone());
     let _ = svc::poll_ready_once(&mut s);
     let mut fut = Box::pin(s.call(kani::any()));
-    assert!(svc::poll_once(fut.as_mut()).is_pending() && mon().calls == 1, "[C16.waits_policy_delay] a connection failure is followed by the policy's delay");
+    assert!(svc::poll_once(fut.as_mut()).is_pending() && mon().calls == 1, "[C16.waits_policy_delay] a connection failure is followed by the policy's delay (the attempt budget is per request: leftovers of earlier requests do not shorten it)");
     shared.mark_connected(); // another request on a clone succeeds meanwhile
     model::advance(d);
     let p = svc::poll_once(fut.as_mut());
@@ -342,4 +350,14 @@ fn builder_is_faithful() {
     assert!(cfg.reconnect_predicate.is_some() == with_pred, "[C16.config_predicate_used] a configured predicate is installed, none otherwise");
     kani::cover!(order == 0 && n == 0, "max_attempts(0) covered");
     std::mem::forget(cfg);
+}
+
+/// C20 readiness clause for reconnect: see svc::check_readiness_passthrough.
+#[kani::proof]
+#[kani::unwind(4)]
+fn readiness_passthrough() {
+    let cfg = mk_cfg(0, false, true, Some(1), Duration::ZERO);
+    let mut s = ReconnectService::new(Inner::new(svc::any_script()), Arc::new(cfg), ReconnectState::new());
+    svc::check_readiness_passthrough(&mut s);
+    std::mem::forget(s);
 }
